@@ -349,6 +349,7 @@ func C09(ctx *core.Ctx) {
 	// ---- R8: a reply is encoded into a buffer of its own ---------------------------------
 	ctx.Rule("C09.R8", "the response a caller receives carries only its own request's op id, correlation id and response headers: every server entry point encodes each reply into a buffer allocated for that message (never a pooled or shared one)", 2)
 	perMessageTransports(ctx, r, "C09.R8")
+	c09DerivedHeaderState(ctx, r)
 
 	// ---- R7: the dispatcher hands the handler the context as it was received ---------------
 	ctx.Rule("C09.R7", "the server-side dispatcher does not rewrite the request's context: between ReadRequestHeader and the processor function no request header (timeout, correlation id, user header) is set on it", 1)
